@@ -9,10 +9,13 @@ import (
 	"flag"
 	"fmt"
 	"io"
+	iofs "io/fs"
 	"math/rand"
 	"os"
 	"os/exec"
+	"path"
 	"path/filepath"
+	"sort"
 	"strings"
 
 	"github.com/uhn/ggql/pkg/ggql"
@@ -44,8 +47,60 @@ type History struct {
 	Tag  string `json:"tag,omitempty"`
 }
 
+// memFS serves one document as two files (ParseFS concatenates them); closeErr makes Close of the last file fail.
+type memFS struct {
+	files    map[string]string
+	closeErr string
+}
+
+type memFile struct {
+	*strings.Reader
+	name string
+	fail bool
+}
+
+func (f *memFile) Stat() (iofs.FileInfo, error) { return nil, fmt.Errorf("no stat") }
+func (f *memFile) Close() error {
+	if f.fail {
+		return fmt.Errorf("close of %s failed", f.name)
+	}
+	return nil
+}
+
+func (m *memFS) Open(name string) (iofs.File, error) {
+	if name == "." {
+		return nil, &iofs.PathError{Op: "open", Path: name, Err: iofs.ErrInvalid}
+	}
+	text, ok := m.files[name]
+	if !ok {
+		return nil, &iofs.PathError{Op: "open", Path: name, Err: iofs.ErrNotExist}
+	}
+	return &memFile{Reader: strings.NewReader(text), name: name, fail: name == m.closeErr}, nil
+}
+
+// Glob makes memFS an fs.GlobFS so that patterns need no directory listing.
+func (m *memFS) Glob(pattern string) ([]string, error) {
+	var out []string
+	for n := range m.files {
+		if ok, _ := path.Match(pattern, n); ok {
+			out = append(out, n)
+		}
+	}
+	sort.Strings(out)
+	return out, nil
+}
+
+var loadCount int
+
 func load(root *ggql.Root, defs []sch.Def) error {
 	text, faultAt := sch.DocText(defs)
+	loadCount++
+	if sch.HasCloseFault(defs) {
+		return root.ParseFS(&memFS{files: map[string]string{"doc.graphql": text}, closeErr: "doc.graphql"}, "*.graphql")
+	}
+	if faultAt < 0 && loadCount%7 == 3 { // the same entry point without a fault
+		return root.ParseFS(&memFS{files: map[string]string{"doc.graphql": text}}, "*.graphql")
+	}
 	var r io.Reader = strings.NewReader(text)
 	if faultAt >= 0 {
 		r = &sch.FaultyReader{Text: text, At: faultAt}
